@@ -428,6 +428,31 @@ mut2('c12-lock-after-read', 'C12', 'C12.region', [(dirf, '''        // Only one 
             .collect();
 
         // sort the keys, as inserting''')], 'lock taken after the epoch record was read')
+mut('c11-is-new-flag', 'C11', 'C11.BIND.is_new_flag', azks, '''            right_node.write_to_storage(storage, right_is_new).await?;''',
+    '''            right_node.write_to_storage(storage, is_new || right_is_new).await?;''', 'child written with a flag that is not its own (seed C11-r1-a)')
+mut('c11-write-after-commit', 'C11', 'C11.ORDER.writes_inside_commit', dirf, '''        Ok(EpochHash(next_epoch, root_hash))
+    }
+
+    /// Provides proof for correctness of latest version''', '''        let _ = self.storage.set(DbRecord::Azks(current_azks.clone())).await;
+        Ok(EpochHash(next_epoch, root_hash))
+    }
+
+    /// Provides proof for correctness of latest version''', 'a record written after the commit', also=['C10'])
+mut('c13-clone-cache-lock', 'C13', 'C13.LOCK.shared_by_clones', dirf, '''            cache_lock: self.cache_lock.clone(),''',
+    '''            cache_lock: Arc::new(RwLock::new(())),''', 'clones stop sharing the reader/flush lock (seed C13-r1-a)')
+mut('c09-sort-key', 'C09', 'C09.OPF', aud, '''    labels.sort_by(|a, b| (a.label_val, a.label_len).cmp(&(b.label_val, b.label_len)));''',
+    '''    labels.sort_by(|a, b| (a.label_len, a.label_val).cmp(&(b.label_len, b.label_val)));''', 'prefix-free check sorts by length first (seed C09-r1-a)')
+mut('c09-early-ok', 'C09', 'C09.V2', aud, '''    let mut unchanged_with_inserted_nodes = proof.unchanged_nodes.clone();''',
+    '''    if proof.inserted.is_empty() {
+        return Ok(());
+    }
+    let mut unchanged_with_inserted_nodes = proof.unchanged_nodes.clone();''', 'end hash not compared when nothing was inserted (seed C09-r1-b)')
+mut('c13-early-drop', 'C13', 'C13.LOCK[lookup]', dirf, '''        let lookup_info = self.get_lookup_info(akd_label, current_epoch).await?;
+
+        let root_hash = EpochHash(''', '''        let lookup_info = self.get_lookup_info(akd_label, current_epoch).await?;
+        drop(_guard);
+
+        let root_hash = EpochHash(''', 'request releases the cache read lock before its last storage access')
 
 out = [m for m in M if not m.get('disabled')]
 json.dump({'mutants': out}, open(os.path.join(os.path.dirname(os.path.abspath(__file__)), 'mutants.json'), 'w'), indent=1)
